@@ -1,3 +1,17 @@
+mod c06;
+mod c07;
+mod c08;
+mod c08_vectors;
+mod gen;
+mod pd;
+mod util;
+
+use pvkit::session::CheckDef;
+
 fn main() {
-    pvkit::main(&[]);
+    pvkit::main(&[
+        CheckDef { id: "C06", level: "exploration", run: c06::run },
+        CheckDef { id: "C07", level: "exploration", run: c07::run },
+        CheckDef { id: "C08", level: "exploration", run: c08::run },
+    ]);
 }
